@@ -196,7 +196,8 @@ class Prop:
     pid = 'C10'
     props_file = 'Props/C10.v'
     required_theorems = ['helper_mode_entry_arms_timer', 'drop_never_leaves_helper_mode', 'stale_implies_timer_or_eor', 'phase_timer_consistency', 'failed_reconnect_keeps_timer', 'no_llgr_dropped_at_llgr_start', 'no_llgr_dropped_at_llgr_only_drop', 'fresh_routes_survive_purge', 'live_session_routes_survive_purge', 'purged_by_expiry_or_eor', 'non_negotiated_families_dropped_at_once', 'non_gr_reasons_retain_nothing', 'eligibility_is_as_stated',
-                         'stale_implies_timer_or_eor_two_connections', 'second_connection_does_not_suppress_helper_mode']
+                         'stale_implies_timer_or_eor_two_connections', 'second_connection_does_not_suppress_helper_mode',
+                         'stale_implies_timer_or_eor_dead_timer_entries']
     correspondence_name = ('Model/Gr.v gr_step vs daemon/src/gr.rs GrState::process (harness/daemon/gr_hx.rs); '
                            'Model/Gr.v h_step / c_step vs apply_disconnect / process_effects / timer handlers / unregister_peer on a real '
                            'PeerContext + TableManager (harness/daemon/event_gr_hx.rs)')
@@ -209,6 +210,10 @@ class Prop:
             'OpenSent when the session drops, ending afterwards in OpenSent / OpenConfirm, ending before the drop, losing the collision '
             'against the Established session, reaching Established after the drop with the same GR / without GR / with a GR subset / '
             'during the LLGR period, forced down together, admitted before admin-down; plus a random mode with such events; '
+            'enumerated multi-cycle histories: two and three drop cycles of one peer x {GR only, GR then LLGR, LLGR only} x how each '
+            'earlier cycle ended (reconnect and End-of-RIB before the restart timer, drop with one End-of-RIB outstanding, restart timer '
+            'expiry, every LLGR timer expiring, one LLGR timer expiring then reconnect during LLGR, forced down) x same / other family '
+            'set later, the same route re-announced per cycle; the same on real 1 s / 2 s timers; '
             'a case is non-trivial when a route is retained stale at some step; '
             'distinct = distinct observation trajectories')
     exhaustive = {'quick': True, 'thorough': True}
@@ -233,8 +238,12 @@ class Prop:
                     'the negotiated GR/LLGR values that are observed come from a second, throw-away PeerSession::new_for_test() driven '
                     'through apply_outputs with the same capabilities; a local Hard Reset cannot be produced on a socket and is covered only '
                     'by the function-level gr_on_disconnect cases',
-                    'timers are fired through their oneshot sender (the RunNow path); a timer counts as armed while its sender is '
-                    'present and not closed; wall-clock expiry of the restart / LLGR timers is not exercised (the hold timer is: really waited for)']
+                    'timers are fired through their oneshot sender (the RunNow path) and the slot is then left as a wall-clock expiry '
+                    'leaves it (entry still present, its task gone: the harness puts a sender whose receiver is dropped in its place, since '
+                    'sending consumes the original); a timer counts as armed only while its sender is present and not closed (its task is '
+                    'alive), entries of llgr_family_timers whose task is gone are observed separately and compared with the model\'s t_dead; '
+                    'in the real_time class the negotiated restart time (1 s) and LLGR stale times (1 s / 2 s) really run out on the real '
+                    'timer tasks and nothing is put into any slot by the harness (the hold timer is really waited for as well)']
     assumptions = ['one peer, one shard; the restarting-speaker role (selection_deferral) is inactive',
                    'at most one Established session at a time (property C07); at most one further connection of the same neighbour, '
                    'which is before Established; no new connection of the first role is opened while the second one is pending '
@@ -247,6 +256,8 @@ class Prop:
             return [2, c['rk'], c['code'], c['sub'], 1 if c['nbit'] else 0]
         if c['kind'] == 'gr':
             return [1, [grin_to_val(i) for i in c['ins']]]
+        if c.get('real'):
+            return [1, [hev_to_val(e) for e in c['evs']], c.get('role', 0), 1]
         if c.get('role'):
             return [1, [hev_to_val(e) for e in c['evs']], c['role']]
         return [1, [hev_to_val(e) for e in c['evs']]]
@@ -554,6 +565,67 @@ class Prop:
                                               evs=self.with_hold(head + tail, False)))
         return cases
 
+    def multi_cycle_cases(self, tier):
+        """two and three drop cycles of one peer: {GR only, GR then LLGR, LLGR only} x how each earlier cycle ended (reconnect and
+        End-of-RIB before the restart timer, restart timer expiry, every LLGR timer expiring, one LLGR timer expiring and a
+        reconnect during the LLGR period, forced down) x the same / another family set in the later cycles; the last cycle runs to
+        the expiry of every timer.  Timer expiries leave the slot as the code leaves it (entry present, task gone)."""
+        a, b = FAMS[0], FAMS[1]
+        F = (a, b)
+        cases = []
+        kinds = [('gr_only', (a, b), None), ('gr_llgr', (a, b), ((a, LT), (b, LT))), ('llgr_only', None, ((a, LT), (b, LT)))]
+        endings = [('eor_before_rtimer', []), ('eor_a_only_then_drop', []), ('rtimer', [('rtimer',)]), ('llgr_expiry', [('rtimer',), ('ltimer', a), ('ltimer', b)]),
+                   ('llgr_partial', [('rtimer',), ('ltimer', a)]), ('force', [('force',)])]
+        def restrict(grf, ll, keep):
+            g = None if grf is None else tuple(f for f in grf if f in keep)
+            l = None if ll is None else tuple(p for p in ll if p[0] in keep)
+            return (g or None), (l or None)
+        sets = [('same', F), ('only_a', (a,)), ('only_b', (b,))]
+        n = 0
+        for kname, grf, ll in kinds:
+            for ncyc in (2, 3):
+                for ends in itertools.product(endings, repeat=ncyc - 1):
+                    for sname, keep in sets:
+                        evs = []
+                        for k in range(ncyc):
+                            g, l = (grf, ll) if k == 0 else restrict(grf, ll, keep)
+                            gr = None if g is None else (g, RT, bool(n % 2))
+                            # the same route of a is announced again in every cycle, b gets a new one; after an ending
+                            # 'eor_a_only_then_drop' the session drops while the End-of-RIB of b is still awaited
+                            evs += [('up', F, gr, l, default_caps(gr, l)), ('ann', a, 0, False, False), ('ann', b, 2 * k + 1, k == 1, False), ('eor', a)]
+                            if not (k > 0 and ends[k - 1][0] == 'eor_a_only_then_drop'):
+                                evs.append(('eor', b))
+                            evs.append(('down', 0))
+                            evs += list(ends[k][1]) if k < ncyc - 1 else [('rtimer',), ('ltimer', a), ('ltimer', b), ('rtimer',), ('ltimer', a)]
+                        n += 1
+                        cases.append(dict(kind='h', cls=['multi_cycle', 'cycles_%d' % ncyc, 'kind_' + kname, 'later_' + sname] +
+                                          ['end%d_%s' % (k + 1, e[0]) for k, e in enumerate(ends)],
+                                          evs=self.with_hold(evs, False)))
+        return cases
+
+    def real_time_cases(self, tier):
+        """the same on real timer tasks whose negotiated time (restart time 1 s, LLGR stale time 1 s / 2 s) really runs out:
+        'rtimer' / 'ltimer' wait for the expiry instead of firing the timer through its sender"""
+        a, b = FAMS[0], FAMS[1]
+        F = (a, b)
+        cases = []
+        kinds = [('gr_only', (a, b), None), ('gr_llgr', (a, b), ((a, 1), (b, 2))), ('gr_llgr_one', (a, b), ((a, 1),)), ('llgr_only', None, ((a, 1), (b, 2)))]
+        for kname, grf, ll in kinds:
+            gr = None if grf is None else (grf, 1, False)
+            up = ('up', F, gr, ll, default_caps(gr, ll))
+            body = [up, ('ann', a, 0, False, False), ('ann', b, 1, False, False), ('eor', a), ('eor', b), ('down', 0)]
+            expire = [('rtimer',), ('ltimer', a), ('ltimer', b)]
+            variants = [('expiry_expiry', body + expire + body + expire)]
+            if tier != 'quick' or kname in ('gr_llgr', 'llgr_only'):
+                variants.append(('expiry_expiry_expiry', body + expire + body + expire + body + expire))
+            if tier != 'quick' or kname == 'gr_llgr':
+                variants.append(('eor_then_expiry', body + body + expire + body + expire))
+                variants.append(('partial_reconnect_expiry', body + [('rtimer',), ('ltimer', a)] + body + expire))
+            for vname, evs in variants:
+                cases.append(dict(kind='h', real=1, cls=['multi_cycle', 'real_time', 'kind_' + kname, 'real_' + vname],
+                                  evs=self.with_hold(evs, False)))
+        return cases
+
     def negotiation_cases(self):
         """boundary values of what is negotiated: restart time 0 / 1 / 4095, LLGR stale time 0 on either or both sides,
         1, 2^24-1, every N bit / R bit combination, empty and duplicate family lists, different orders, families
@@ -605,6 +677,8 @@ class Prop:
         cases += self.matrix_cases(tier)
         cases += self.negotiation_cases()
         cases += self.sibling_cases(tier)
+        cases += self.multi_cycle_cases(tier)
+        cases += self.real_time_cases(tier)
         nh = 800 if tier == 'quick' else 12000
         modes = ['clean'] * 6 + ['nogr', 'any', 'any', 'fail', 'force', 'comm', 'admin', 'mixed', 'offfam', 'sib', 'sib']
         hold_budget = 6 if tier == 'quick' else 60
@@ -655,7 +729,7 @@ class Prop:
             return obs
         if case['kind'] == 'gr':
             return [[[[o[0], sorted(o[1])] if o[0] in (2, 5) else o for o in outs], b] for outs, b in obs]
-        return [[a, b, sorted(lt), sorted(rs), ng] for a, b, lt, rs, ng in obs]
+        return [[a, b, sorted(lt), sorted(rs), ng, sorted(dead)] for a, b, lt, rs, ng, dead in obs]
 
     # ---- Spec oracle (python mirror of Spec/GrSpec.v): judges the implementation's observations
     def oracle(self, c, obs):
